@@ -719,7 +719,7 @@ def performLogicAndFlowControl (env : Env) (a : Addr) (obj : Obj) : M Bool := do
     let o ← popEvalM
     match o with
     | .val v => liftS (fun s => s.assign env.defs name isNew isGlobal v)
-    | _ => crash "control_logic.rs:assign_downcast"
+    | _ => invalid "Cannot assign a void value to a variable. Did you forget to 'return' a value from a function you called here?"
     return true
   | .varRef name count =>
     match count with
